@@ -2,6 +2,7 @@
 from contracts import c10_c11_io as C
 from contracts import c01_lp  # noqa
 from contracts import c11_reader as R
+from contracts import c11_model as M2
 from props._generic import run_property, replay_with_driver
 
 LEVEL = "other"
@@ -20,7 +21,7 @@ def lemmas():
     raises_case = xr_lt(ub, lb)                                         # requires of case `lb_gt_ub`
     out = [Obl("C11/lemma/bounds-pair-protocol-never-raises-for-valid-pairs", dom, z3.And(valid_case, z3.Not(raises_case)), "lemma")]
     # round trip per object kind: writer post-condition o reader post-condition (contracts/c11_reader.py)
-    return out + R.lemmas()
+    return out + R.lemmas() + M2.lemmas()
 
 
 _READER_KEYS = ("_reaction_from_dict", "_metabolite_from_dict", "gene_from_dict")
@@ -143,7 +144,7 @@ def fallback(key, case, rec):
 
 
 def run(rep):
-    run_property(rep, KEYS, hooks=C.HOOKS, more=[(R.KEYS + R.ASSUMED_KEYS, R.HOOKS)], lemmas=lemmas, fallback=fallback, explanation=(
+    run_property(rep, KEYS, hooks=C.HOOKS, more=[(R.KEYS + R.ASSUMED_KEYS, R.HOOKS), (M2.KEYS + M2.ASSUMED_KEYS, M2.HOOKS)], lemmas=lemmas, fallback=fallback, explanation=(
         "Deductive part (the writer half of the dict form): dict._fix_type is proved to be the identity on str/float/bool/int, to map "
         "None to '' and a dictionary to a NEW dictionary with the same keys and value objects; dict._update_optional is proved, for "
         "its four instantiations (reaction, metabolite, gene, model key lists; None-able attributes in both shapes), to write an "
@@ -174,12 +175,29 @@ def run(rep):
         "with compartment ''; and the writer's output for a reaction with valid bounds meets the reader's precondition on the bounds. "
         "Assumed (trusted list): the constructors Metabolite() / Gene(id) / Reaction() with the defaults of their __init__ chain, the "
         "gene_reaction_rule setter keeping the text it is given, add_metabolites as an abstract recorded call (what the reaction holds "
-        "afterwards, the writer's stoichiometry loop, model_to_dict / model_from_dict and objective coefficients are NOT claimed "
-        "deductively). The codecs (json, ruamel.yaml, pickle), the dict assembly loops over heterogeneous values and the gene-rule "
+        "afterwards, the writer's stoichiometry loop and what set_objective does with the coefficients are NOT claimed "
+        "deductively by THESE contracts). The model level (contracts/c11_model.py), for lists of ANY length: model_to_dict is proved "
+        "to return a new record with the keys metabolites / reactions / genes / id, then objective_direction exactly when the "
+        "model's current direction is 'min' (value 'min'; absent means 'max'), then the optional model attributes exactly as "
+        "_update_optional's contract says; each list is a new list with one entry per member of the model's DictList - entry j is "
+        "the record the (proved) writer function returns for member j, as a term; with sort=True a permutation of that (ghost "
+        "bijection) ordered by the records' ids (list.sort's order: assumed). model_from_dict is proved to raise ValueError without "
+        "'reactions' and otherwise to return a new Model after exactly the calls add_metabolites(L1), genes.extend(L2), "
+        "add_reactions(L3), set_objective(model, D) [, objective_direction = d], setattr for the present keys of the table only, where "
+        "Lk holds, in order, the object the (proved) reader function returns for every record, D maps exactly the reactions whose "
+        "record has a present, NON-ZERO objective_coefficient (negative ones too) to that coefficient, and the direction ends up as "
+        "the stored one when it is 'min' / 'max' and as 'max' otherwise; stated precondition: pairwise different reaction identifiers, "
+        "finite coefficients; the readers' own preconditions are not discharged at this level. Glue lemmas: same list lengths and "
+        "order through writer then reader, and a 'min' / 'max' direction comes back. "
+        "The codecs (json, ruamel.yaml, pickle), the dict assembly loops over heterogeneous values and the gene-rule "
         "text are outside the verifier's reach: bounded driver (snapshot equality incl. the solver problem, optimum and idempotence for "
         "every format/variant on generated models, non-default Configuration bounds)."),
         trusted=["json / ruamel.yaml / pickle codecs", "float(str(x)) == x (axiom of the round-trip lemmas, for +inf / -inf / NaN)",
-                 "float(s) / str(x) as uninterpreted functions (pyvc/builtins.py)"])
+                 "float(s) / str(x) as uninterpreted functions (pyvc/builtins.py)",
+                 "list.sort(key=itemgetter('id')) orders by the uninterpreted string order str_le over record_id (contracts/c11_model.py)",
+                 "object_id(read_<kind>(record)) == record_id(record): the reader contracts, used as an axiom at the model level",
+                 "Model(), Model.add_metabolites / genes.extend / Model.add_reactions / set_objective / the objective_direction setter "
+                 "as recorded calls with the assumed effects listed under C11:* (contracts/c11_model.py)"])
 
 
 def replay(payload):
